@@ -41,6 +41,8 @@ def main():
         n = d.split("/")[-1]
         if "/seed2/" in d:
             n = str(int(n) + 2)  # second seeding round
+        if "/seed3/" in d:
+            n = str(int(n) + 4)  # third seeding round
         sid = f"{prop}-{n}"
         meta = json.load(open(os.path.join(d, "meta.json")))
         cmd = meta.get("demo_cmd", "")
